@@ -421,12 +421,18 @@ def run(ctx):
         # complexify / simplify on complemented python_full_version nodes, restrict with two extras on one path
         template = []
         if pi % 3 == 0:
-            fam = ctx.rng.choice([("extra == 'a'", "extra == 'b'"), ("'x' in sys_platform", "extra == 'a'"), ("os_name == 'a'", "os_name == 'b'"),
-                                  ("python_full_version >= '3.8'", "python_full_version < '3.10'"), ("python_full_version <= '3.8.1'", "python_full_version >= '3.8.1'")])
+            fam = [("extra == 'a'", "extra == 'b'"), ("'x' in sys_platform", "extra == 'a'"), ("os_name == 'a'", "os_name == 'b'"),
+                   ("python_full_version >= '3.8'", "python_full_version < '3.10'"), ("python_full_version <= '3.8.1'", "python_full_version >= '3.8.1'")][(pi // 3) % 5]
             template = [('expr', fam[0]), ('expr', fam[1]), ('or', 0, 1), ('not', 0), ('and', 2, 3), ('or', 2, 3), ('and', 3, 1), ('and', 0, 1), ('and', 1, 0),
                         ('expr', "python_full_version >= '3.8'"), ('cplxpv', 9, 'U', ['E', S('3.11')]), ('cplxpv', 9, ['I', S('3.9')], ['I', S('3.12')]),
                         ('not', 9), ('cplxpv', 12, ['E', S('3.7')], ['E', S('3.8')]), ('simppv', 10, ['I', S('3.8')], 'U'), ('and', 10, 4),
                         ('expr', "extra == 'a'"), ('expr', "extra == 'b'"), ('and', 16, 17), ('simpx', 18, ['a', 'b']), ('or', 18, 2), ('simpx', 20, ['a']), ('simpx', 18, ['a']), ('simpx', 18, ['b']), ('simpx', 18, ['a', 'b']), ('simpx', 20, ['b'])]
+            # absorption first, the complement afterwards: a conjunction that equals one of its operands, then the other operand with that
+            # operand's negation (whatever was remembered about the first must not answer the second), in both operand orders
+            n0 = len(template)
+            p_, q_ = [("platform_machine == 'p'", "platform_machine == 'q'"), ("'p' in platform_system", "extra == 'q'"), ("platform_release < 'p'", "platform_release >= 'q'")][(pi // 3) % 3]
+            template += [('expr', p_), ('expr', q_), ('or', n0, n0 + 1), ('and', n0 + 2, n0), ('not', n0), ('and', n0 + 2, n0 + 4), ('and', n0 + 1, n0 + 2), ('not', n0 + 1), ('and', n0 + 7, n0 + 2),
+                         ('not', n0 + 2), ('or', n0 + 9, n0), ('or', n0 + 4, n0 + 9), ('or', n0 + 5, n0 + 3)]
         for st in template:
             if st[0] == 'expr':
                 a = sess.ask(['expr', S(st[1])])
